@@ -280,7 +280,7 @@ class PatternConcept:
         objects = list(objects)
         objects_i = [K.object_names.index(g) for g in objects] if objects and isinstance(objects[0], str) else objects
         intent_i = K.intention_i(objects_i)
-        intent = {K.attribute_names[m_i]: v for m_i, v in intent_i.items()}
+        intent = {K.pattern_structures[m_i].name: v for m_i, v in intent_i.items()}
 
         if not is_extent:
             objects_i = K.extension_i(intent_i)
